@@ -270,6 +270,40 @@ fn misc() -> (usize, Vec<Value>) {
         let ok: CResult<u64, u32> = Ok(9).into(); let er: CResult<u64, u32> = Err(4).into();
         check!("result tags", cview::cv_res_tag(vp(&ok)) == 0 && cview::cv_res_ok(vp(&ok)) == 9 && cview::cv_res_tag(vp(&er)) == 1 && cview::cv_res_err(vp(&er)) == 4,
                "Ok tag {} Err tag {}", cview::cv_res_tag(vp(&ok)), cview::cv_res_tag(vp(&er)));
+        // payloads narrower than the tag: the published declaration is {int tag; payload}, so size, payload offset and every
+        // byte of the tag matter (the value is written into memory pre-filled with a pattern: padding is not "zero by luck")
+        let sizes = [std::mem::size_of::<COption<u8>>(), std::mem::size_of::<COption<u16>>(), std::mem::size_of::<COption<u64>>(),
+                     std::mem::size_of::<CResult<u8, u16>>(), std::mem::size_of::<CResult<u64, u32>>()];
+        for (k, sz) in sizes.iter().enumerate() {
+            check!("option/result size", *sz == cview::cv_sizeof(k as i32), "type #{}: Rust size {} C size {}", k, sz, cview::cv_sizeof(k as i32));
+        }
+        {
+            let mut slot = std::mem::MaybeUninit::<COption<u8>>::uninit();
+            std::ptr::write_bytes(slot.as_mut_ptr() as *mut u8, 0xA5, std::mem::size_of::<COption<u8>>());
+            slot.as_mut_ptr().write(Some(0x34u8).into());
+            let p = slot.as_ptr() as *const c_void;
+            check!("option<u8> read by C", cview::cv_opt8_tag(p) == 1 && cview::cv_opt8_value(p) == 0x34, "tag {:#x} value {:#x}", cview::cv_opt8_tag(p), cview::cv_opt8_value(p));
+            slot.as_mut_ptr().write(None.into());
+            check!("option<u8> None read by C", cview::cv_opt8_tag(p) == 0, "tag {:#x}", cview::cv_opt8_tag(p));
+            let mut cbuilt = [0u8; 16];
+            cview::cv_opt8_fill(cbuilt.as_mut_ptr() as *mut c_void, 1, 0x77);
+            if std::mem::size_of::<COption<u8>>() <= 16 {
+                let back: COption<u8> = std::ptr::read_unaligned(cbuilt.as_ptr() as *const COption<u8>);
+                check!("option<u8> built by C", Option::from(back) == Some(0x77u8), "C-built Some(0x77) reads back as {:?}", Option::<u8>::from(back));
+            }
+            let mut slot16 = std::mem::MaybeUninit::<COption<u16>>::uninit();
+            std::ptr::write_bytes(slot16.as_mut_ptr() as *mut u8, 0xA5, std::mem::size_of::<COption<u16>>());
+            slot16.as_mut_ptr().write(Some(0x1234u16).into());
+            let p = slot16.as_ptr() as *const c_void;
+            check!("option<u16> read by C", cview::cv_opt16_tag(p) == 1 && cview::cv_opt16_value(p) == 0x1234, "tag {:#x} value {:#x}", cview::cv_opt16_tag(p), cview::cv_opt16_value(p));
+            let mut r = std::mem::MaybeUninit::<CResult<u8, u16>>::uninit();
+            std::ptr::write_bytes(r.as_mut_ptr() as *mut u8, 0xA5, std::mem::size_of::<CResult<u8, u16>>());
+            r.as_mut_ptr().write(Ok(9u8).into());
+            let p = r.as_ptr() as *const c_void;
+            check!("result<u8,u16> Ok read by C", cview::cv_res816_tag(p) == 0 && cview::cv_res816_ok(p) == 9, "tag {:#x}", cview::cv_res816_tag(p));
+            r.as_mut_ptr().write(Err(0x4321u16).into());
+            check!("result<u8,u16> Err read by C", cview::cv_res816_tag(p) == 1 && cview::cv_res816_err(p) == 0x4321, "tag {:#x} err {:#x}", cview::cv_res816_tag(p), cview::cv_res816_err(p));
+        }
     }
     (n, fails)
 }
